@@ -245,19 +245,19 @@ class Ctx:
             self.violation({"kind": "audit", "hits": bad}, tag="audit", no_input=True)
             return False
         n, q, names = self.obligations(list(dirs) + [prop_v])
-        self.cov["obligations"] = n
-        self.cov["discharged"] = q
+        self.cov["obligations"] += n          # accumulates when a check is made of several parts
+        self.cov["discharged"] += q
         a, out = self.assumptions_of(prop_v)
         if a is None:
             self.violation({"kind": "proof-broken", "what": prop_v + " does not compile", "log_tail": out[-3000:]},
                            tag="proof", no_input=True)
             return False
-        self.cov["checker_cmd"] = "make -C /verif/coq -j16 (coqc 8.16.1, full .vo) ; coqc Properties/%s.v (Print Assumptions)" % self.id
-        tb = ["Coq 8.16.1 kernel incl. vm_compute (no native_compute)",
-              "Print Assumptions: %d theorem(s) closed under the global context; axioms: %s" % (a["closed"], a["axioms"] or "none")]
-        tb += list(extra_trusted)
+        self.cov["checker_cmd"] = "make -C /verif/coq -j16 (coqc 8.16.1, full .vo) ; coqc Properties/<file>.v (Print Assumptions)"
+        tb = self.cov["trusted_base"] or ["Coq 8.16.1 kernel incl. vm_compute (no native_compute)"]
+        tb.append("%s: Print Assumptions: %d theorem(s) closed under the global context; axioms: %s" % (prop_v, a["closed"], a["axioms"] or "none"))
+        tb += [t for t in extra_trusted if t not in tb]
         self.cov["trusted_base"] = tb
-        self.cov["property_theorems"] = [x for x in names if x.startswith(self.id + "_")]
+        self.cov["property_theorems"] = self.cov.get("property_theorems", []) + [x for x in names if re.match(r"C\d\d_", x)]
         return True
 
     def corr(self, harness_bin, args, cases_name="cases.v", timeout=900, describe=None):
@@ -338,3 +338,26 @@ def in_section(src, lineno):
         elif re.match(r"^\s*End\s+\w+", line):
             depth -= 1
     return depth > 0
+
+
+def run_parts(ctx, parts):
+    """A property whose check is made of several independently built parts: checks/<part>.py with run_part(ctx).
+    A part that is not there yet is skipped (and named in the evidence); a part that raises is a broken check."""
+    import importlib
+    done, missing = [], []
+    for p in parts:
+        try:
+            mod = importlib.import_module("checks." + p)
+        except ModuleNotFoundError as ex:
+            if ex.name == "checks." + p:
+                missing.append(p)
+                continue
+            raise
+        ctx.log("part " + p)
+        mod.run_part(ctx)
+        done.append(p)
+    ctx.cov["parts_run"] = done
+    if missing:
+        ctx.cov["parts_missing"] = missing
+    if not done:
+        raise RuntimeError("no part of this check exists yet")
